@@ -92,8 +92,36 @@ ASSUMPTIONS = ["packages are static source trees with __init__.py (no namespace 
                "pristine cases override the public methods expand_exports / expand_wildcards on the loader instance (as a subclass could)"]
 
 ALARM_S = 4
-ALARM_RETRY_S = 40          # a watchdog hit is re-run once with this limit before it counts (the machine may be stalled)
+ALARM_RETRY_S = 20          # a watchdog hit is re-run once with this limit before it counts (the machine may be stalled)
+RETRY_BUDGET_S = 90         # ... as long as the run has spent less than this on such re-runs altogether (a changed tree that
+                            # hangs on many inputs must not turn into a retry storm: further hits are reported as they are)
 _alarm_s = [ALARM_S]
+_retry_spent = [0.0]
+_hangs = [0]                # watchdog hits reported as failures in this run
+MAX_HANGS = 5               # enough failing inputs of that kind: stop exploring (each further one costs ALARM_S seconds)
+
+
+def enough_failures(ctx):
+    return len(ctx.prop_failures) >= 20 or _hangs[0] >= MAX_HANGS
+
+
+def retry_allowed():
+    return _retry_spent[0] < RETRY_BUDGET_S
+
+
+class long_alarm:
+    """`with long_alarm():` re-run under the long limit, charging the wall time to the retry budget."""
+
+    def __enter__(self):
+        import time
+        self.t0 = time.time()
+        _alarm_s[0] = ALARM_RETRY_S
+
+    def __exit__(self, *exc):
+        import time
+        _alarm_s[0] = ALARM_S
+        _retry_spent[0] += time.time() - self.t0
+        return False
 
 
 # --------------------------------------------------------------------------------------------------------------------
@@ -747,7 +775,7 @@ def run_batch(ctx, batch, label, use_model=True, pristine_share=2, implicit_shar
     for k, item in enumerate(batch):
         files, loads, interleave = item[:3]
         stubs = item[3] if len(item) > 3 else None
-        if len(ctx.prop_failures) >= 20:
+        if enough_failures(ctx):
             break                                        # enough new violations to report; do not burn watchdog time
         ops = OPS_TRACE if k % 3 == 2 else OPS
         pristine = bool(pristine_share) and (k % pristine_share == pristine_share - 1)
@@ -757,13 +785,12 @@ def run_batch(ctx, batch, label, use_model=True, pristine_share=2, implicit_shar
         if stubs:
             case["stubs"] = stubs
         rec = run_impl(files, loads, root, interleave, ops, pristine, implicit, stubs)
-        if rec["stage"] and rec["fail"][0] == "timeout":
+        if rec["stage"] and rec["fail"][0] == "timeout" and retry_allowed():
             ctx.count("watchdog_hit_retried")          # only a hang that survives the long limit is reported
-            _alarm_s[0] = ALARM_RETRY_S
-            try:
+            with long_alarm():
                 rec = run_impl(files, loads, root, interleave, ops, pristine, implicit, stubs)
-            finally:
-                _alarm_s[0] = ALARM_S
+        if rec["stage"] and rec["fail"][0] == "timeout":
+            _hangs[0] += 1
         rec["ops"] = ops
         feats = graph_features(files)
         n_alias = len(rec["snap"].alias_ids()) if rec.get("snap") else 0
@@ -901,6 +928,13 @@ def random_external_wild(rng):
         if "." not in m and rng.random() < 0.5:
             # a package re-exporting another package wholesale (several packages may import the same one)
             lines.append(f"from {rng.choice([t for t in EXT_MODS if t != m])} import *")
+        if rng.random() < 0.25:
+            # a module of another package re-exported under a short name, then wildcard-imported through that name
+            # (what `os` does with `os.path`): the wildcard's target path runs through an alias into a package that
+            # may not be loaded yet
+            other = rng.choice([t for t in EXT_MODS if t != m.split(".")[0]])
+            pair = [f"from {other} import a as v", f"from {m}.v import *"]
+            lines += pair if rng.random() < 0.8 else pair[::-1]
         for _ in range(rng.randint(1, 3)):
             nm = rng.choice(NAMES[:2])
             k = rng.random()
@@ -1087,13 +1121,12 @@ def run_external(ctx, files, loads, external, label, _retry=False, implicit=True
     def escape(what, r):
         """Something left load()/resolve_aliases().  C06-F6: the members dict of an object was changed by a nested
         expansion (reached through a side-load) while an enclosing frame iterates over it."""
-        if r[0] == "timeout" and not _retry:
+        if r[0] == "timeout" and not _retry and retry_allowed():
             ctx.count("watchdog_hit_retried")
-            _alarm_s[0] = ALARM_RETRY_S
-            try:
+            with long_alarm():
                 return run_external(ctx, files, loads, external, label, _retry=True, implicit=implicit)
-            finally:
-                _alarm_s[0] = ALARM_S
+        if r[0] == "timeout":
+            _hangs[0] += 1
         iter_err = r[0] == "raise" and (
             (r[1][0] == "RuntimeError" and "changed" in r[2] and "during iteration" in r[2]) or
             (r[1][0] == "KeyError" and r[1][1][-1:] == ["del_member"] and r[2].strip("'\"").endswith("/*")))
@@ -1236,6 +1269,8 @@ def explore(ctx):
     logging.getLogger("griffe").setLevel(logging.CRITICAL)
     logging.getLogger("_griffe").setLevel(logging.CRITICAL)
     rng = ctx.rng
+    _retry_spent[0] = 0.0
+    _hangs[0] = 0
     replay_witnesses(ctx)
     replay_corpus(ctx)
     # 1. exhaustive chain-level graphs: every (module, name) slot is empty / a definition / `from T import n [as name]`
@@ -1285,14 +1320,14 @@ def explore(ctx):
         files = random_external(rng)
         ext = True if k % 2 else None
         run_external(ctx, files, side_loads(rng, ext), ext, f"side-loading(external={ext})", implicit=(k % 5 != 4))
-        if len(ctx.prop_failures) >= 20:
+        if enough_failures(ctx):
             break
     # 5b. the same with wildcard imports between the packages (side-loads inside expand_wildcards, packages importing back)
     for k in range(ctx.budget(600, 6000)):
         files = random_external_wild(rng)
         ext = True if k % 2 else None
         run_external(ctx, files, side_loads(rng, ext), ext, f"side-loading+wildcards(external={ext})", implicit=(k % 5 != 4))
-        if len(ctx.prop_failures) >= 20:
+        if enough_failures(ctx):
             break
     flush_loops(ctx)
     if not ctx.quick:
